@@ -4,6 +4,37 @@ From PG Require Import Common.Tactics Model.Html Proofs.HtmlProofs.
 From Coq Require Import NArith.
 Local Open Scope N_scope.
 
-Theorem C20_render_text_is_escape : forall s, render (Txt s) = escape s.
-Proof. exact render_txt. Qed.
-Print Assumptions C20_render_text_is_escape.
+(* html.escape never emits lt, gt, double quote or apostrophe, and every ampersand it emits starts one of the five entities. *)
+Theorem C20_escape_safe : forall s, no_meta (escape s).
+Proof. exact escape_safe. Qed.
+Print Assumptions C20_escape_safe.
+
+(* ... read position by position: whatever precedes an ampersand of the escaped string, an entity name follows it. *)
+Theorem C20_escape_ampersands : forall s pre post, escape s = pre ++ c_amp :: post ->
+  exists ch n, entity_at post = Some (ch, n).
+Proof. intros s pre post H. exact (amps_ok_spec (escape s) pre post (escape_amps_ok s) H). Qed.
+Print Assumptions C20_escape_ampersands.
+
+(* Nothing is lost: the strict decoder inverts escape, hence escape is injective. *)
+Theorem C20_escape_invertible : forall s, unescape (escape s) = s.
+Proof. exact unescape_escape. Qed.
+Print Assumptions C20_escape_invertible.
+
+(* Every tree built from elements with proper names and text nodes (any strings, any depth) renders to a
+   string that the strict parser accepts and reads back as that very tree (texts merged): every element is
+   closed, properly nested, and no text or attribute value turns into markup. *)
+Theorem C20_render_parse : forall t, names_ok t -> parse_html (render t) = Some (normalize [t]).
+Proof. exact render_parse. Qed.
+Print Assumptions C20_render_parse.
+
+Theorem C20_render_parse_list : forall ts, Forall names_ok ts -> parse_html (render_list ts) = Some (normalize ts).
+Proof. exact render_parse_list. Qed.
+Print Assumptions C20_render_parse_list.
+
+(* The defect this property was written for, on the model: a key written verbatim is markup, the same key written as text is text. *)
+Theorem C20_raw_key_refuted :
+  parse_html (render (El s_span [] [] [Raw s_k_i])) = None /\
+  parse_html (render (El s_span [] [] [Raw s_k_i_closed])) = Some [El s_span [] [] [Txt s_k; El s_i [] [] []]] /\
+  parse_html (render (El s_span [] [] [Txt s_k_i_closed])) = Some [El s_span [] [] [Txt s_k_i_closed]].
+Proof. exact (conj raw_key_malformed (conj raw_key_injects escaped_key_is_text)). Qed.
+Print Assumptions C20_raw_key_refuted.
